@@ -784,6 +784,7 @@ func (ds *AnySource) writeControlStart(config *WriteControlConfig) error {
 	if err != nil {
 		return fmt.Errorf("could not make directory: %s", err.Error())
 	}
+	verifPoint("write.start.dirmade")
 
 	channelsWithOff := 0
 	for i, dsp := range ds.processors {
